@@ -42,7 +42,8 @@ func genConfig(prop string) func(r *sim.Rand, tier string) sim.Config {
 		c := sim.Config{"n": int64(n), "byz_mask": mask, "height": int64(r.Intn(2 * n)), "start_vals": sv,
 			"steps": int64(60 + r.Intn(340)), "full_node": int64(r.Intn(2)),
 			"w_deliver": int64(50 + r.Intn(50)), "w_timeout": int64(r.Weighted(3, 2, 2, 1, 1, 1)), "w_byz": int64(3 + r.Intn(20)), "w_redeliver": int64(r.Intn(4)), "p_script": int64(r.Intn(4)),
-			"late_start": int64(r.Intn(4)), // 0: some operators start late
+			"late_start": int64(r.Intn(4)),                // 0: some operators start late
+			"picky":      int64(r.Intn(3*n)) - int64(2*n), // >=0: that operator's own value check also rejects value 2
 			"script":     int64(r.Intn(6)),
 		}
 		if n >= 10 {
@@ -58,6 +59,7 @@ func genConfig(prop string) func(r *sim.Rand, tier string) sim.Config {
 			}
 			c["late_start"] = 1
 			c["w_timeout"] = int64(r.Intn(8))
+			c["picky"] = -1 // liveness is stated for values every correct operator accepts
 		}
 		if prop == "C06" {
 			c["compact"] = int64(r.Intn(2))
@@ -157,6 +159,9 @@ func (w *world) genByz(r *sim.Rand) *sim.Step {
 	if round < 0 {
 		round = 0
 	}
+	if r.Chance(0.08) { // far-away rounds
+		round = int64(r.Intn(12))
+	}
 	forge := int64(0)
 	if w.prop == "C02" && r.Chance(0.45) || r.Chance(0.05) {
 		forge = int64(1 + r.Intn(nForge-1))
@@ -173,7 +178,11 @@ func (w *world) genByz(r *sim.Rand) *sim.Step {
 	if r.Chance(0.5) {
 		pr = 1 + int64(r.Intn(int(round)+1))
 	}
-	return &sim.Step{Op: "byz", A: []int64{int64(r.Intn(len(w.byzIdx))), tmpl, round, int64(r.Weighted(4, 4, 2, 1, 1)), pr, mask, int64(r.U64() >> 1), forge}}
+	mode := int64(0)
+	if r.Chance(0.15) {
+		mode = int64(1 + r.Intn(5))
+	}
+	return &sim.Step{Op: "byz", A: []int64{int64(r.Intn(len(w.byzIdx))), tmpl, round, int64(r.Weighted(4, 4, 2, 1, 1)), pr, mask, int64(r.U64() >> 1), forge, mode}}
 }
 
 // script pushes a multi-step Byzantine pattern onto the plan.
@@ -292,7 +301,7 @@ func (w *world) attack(r *sim.Rand) {
 	}
 	p = append(p, fl(all))
 	next := round + 1
-	mode := int64(1 + r.Intn(4))
+	mode := int64(1 + r.Intn(5))
 	for from := range w.byzIdx {
 		p = append(p, bz(from, tRoundChange, next, other, 0, all, 0))
 	}
